@@ -1213,6 +1213,15 @@ class Intrinsics:
             return self.ex.frac_part(P, x, 'numerator')
         raise Unsupported(f'frac_num({x!r})')
 
+    # derived sequences (C04, pyvc/derivedseq.py)
+    def s_same_elem(self, P, a, i, b, j):
+        from . import derivedseq
+        return derivedseq.same_elem(P, a, i, b, j)
+
+    def s_elem_is(self, P, x, s, j):
+        from . import derivedseq
+        return derivedseq.elem_is(P, x, s, j)
+
     def s_cons_name(self, P, v):
         """speclib.cons_name: class name of a (Python ast) node"""
         if type(v).__name__ == 'FreeCons':
